@@ -120,9 +120,11 @@ let parse_wscript s =
 (* ---- reader *)
 let parse_rscript s =
   if s = "-" || s = "" then [] else
+  (* "w" = the async source answers Poll::Pending once and is polled again: the executor's re-poll is outside the model
+     (Reader.anext is one completed read + one blocking next), so the step is dropped here; the harness really returns Pending *)
   List.map (fun t -> if t = "p" then Pause
              else if t.[0] = 'e' then Fail (n_of_string (String.sub t 1 (String.length t - 1)))
-             else Chunk (n_of_string t)) (split ',' s)
+             else Chunk (n_of_string t)) (List.filter (fun t -> t <> "w") (split ',' s))
 
 type rcfg = { cfg : cfg; cap0 : n }
 
